@@ -508,6 +508,12 @@ pub enum COp {
     Advance(u8),
     GetU8,
     CopyToBytes(u8),
+    /// `std::io::Read::read` into a buffer of that size. What reading does to the value is not specified by the statement
+    /// (the listed operations are others); that the two variants cannot be told apart through it - same result, same value
+    /// afterwards - is ("indistinguishable through every accessor").
+    IoRead(u8),
+    /// `std::io::Read::read_exact` with a buffer that may be longer than what is left
+    IoReadExact(u8),
 }
 
 #[derive(Clone, Debug, Hash, Serialize, Deserialize)]
@@ -577,7 +583,24 @@ pub fn run_cow(case: &CowCase) -> Outcome {
             let at = |k: u8| (k as usize * (n + 1)) >> 8; // always in range 0..=n
             let (mut rt, mut rs, mut rm): (Option<Vec<u8>>, Option<Vec<u8>>, Option<Vec<u8>>) = (None, None, None);
             let mut contract: Option<String> = None;
+            let mut io_results: Option<(String, String)> = None;
             let r = quiet_catch(|| match op {
+                COp::IoRead(k) | COp::IoReadExact(k) => {
+                    use std::io::Read;
+                    let len = (*k as usize) % 24;
+                    let exact = matches!(op, COp::IoReadExact(_));
+                    let mut go = |c: &mut CowBytes<'_>| {
+                        let mut buf = vec![0xa5u8; len];
+                        if exact {
+                            format!("{:?} buf={:02x?}", c.read_exact(&mut buf).map_err(|e| e.kind()), buf)
+                        } else {
+                            format!("{:?} buf={:02x?}", c.read(&mut buf).map_err(|e| e.kind()), buf)
+                        }
+                    };
+                    io_results = Some((go(&mut t), go(&mut s)));
+                    // no model of what reading consumes: the byte-vector model follows the borrowed variant, the owned one must agree
+                    model = t.as_ref().to_vec();
+                }
                 COp::SplitTo(k) => {
                     let a = at(*k);
                     rt = Some(t.split_to(a).as_ref().to_vec());
@@ -632,6 +655,11 @@ pub fn run_cow(case: &CowCase) -> Outcome {
             if let Some(m) = contract {
                 return Outcome::violation("cow-buf-contract", format!("step {step}: {op:?}: {m}"));
             }
+            if let Some((a, b)) = &io_results {
+                if a != b {
+                    return Outcome::violation("cow-variants-differ:io-read", format!("step {step}: {op:?} on the borrowed variant gives {a}, on the owned variant {b}"));
+                }
+            }
             if rt != rm || rs != rm {
                 return Outcome::violation("cow-return", format!("step {step}: {op:?} returned temp={rt:?} static={rs:?} model={rm:?}"));
             }
@@ -658,7 +686,7 @@ pub fn run(ctx: &Ctx, rep: &mut Report) {
     rep.assumptions = vec![
         "model: plain Vec<u8>; chunk-index operations are mapped to byte ranges through the chunk lengths the chain itself reports before the operation".into(),
         "out-of-range (index/length past the end, empty segment): a panic is accepted, otherwise the value must be unchanged and consistent".into(),
-        "impl std::io::Read for CowBytes is not among the listed operations and is not asserted".into(),
+        "impl std::io::Read for CowBytes: what reading consumes is not among the listed operations and is not asserted; that both variants give the same result and are the same value afterwards is".into(),
         "built with debug-assertions off, so pbuf.rs verify_invariants does not mask wrong values with a debug panic".into(),
     ];
     let t = ctx.tier;
@@ -714,6 +742,8 @@ pub fn run(ctx: &Ctx, rep: &mut Report) {
                     any::<u8>().prop_map(COp::Advance),
                     Just(COp::GetU8),
                     any::<u8>().prop_map(COp::CopyToBytes),
+                    any::<u8>().prop_map(COp::IoRead),
+                    any::<u8>().prop_map(COp::IoReadExact),
                 ],
                 0..6,
             ))
